@@ -1,6 +1,7 @@
 import LolHtml.Lemmas.StreamLocations
 import LolHtml.Lemmas.LocationsOk
 import LolHtml.Lemmas.StreamLocationsAll
+import LolHtml.Lemmas.StreamIndep
 import LolHtml.Thm.C15_Core
 import LolHtml.Lemmas.SpecAttrsWf
 import LolHtml.Model.AttrsApi
@@ -400,6 +401,94 @@ example : ((run ⟨Gen.Syntax.table, Gen.Tags.cfg, withLog removeAll⟩
 example : sinkBytes (run ⟨Gen.Syntax.table, Gen.Tags.cfg, withLog removeAll⟩
       (Rewriter.new ⟨Gen.Syntax.table, Gen.Tags.cfg, withLog removeAll⟩ (true, []) {}) sampleChunks).1.sink
     = [60,100,105,118,32,97,61,98,62, 60,47,100,105,118,62] := by decide +kernel
+
+/-! ### independence of rewrites -/
+
+/-- related rewriters: the same state except for the sink log -/
+def RR (r₁ r₂ : Rewriter γ) : Prop := SR r₁.stream r₂.stream ∧ r₁.poisoned = r₂.poisoned ∧ r₁.ended = r₂.ended
+
+theorem new_RR (w : World γ) (ch : γ → Token → List Bytes) (he : γ → List Bytes) (bo : γ → Err → List Bytes)
+    (g : γ) (cfg : Settings) : RR (Rewriter.new (w.rechunk ch he bo) g cfg) (Rewriter.new w g cfg) :=
+  ⟨⟨⟨rfl, rfl, rfl, rfl, rfl, rfl, rfl, rfl⟩, rfl, rfl, rfl, rfl⟩, rfl, rfl⟩
+
+theorem write_RR {w : World γ} {ch : γ → Token → List Bytes} {he : γ → List Bytes} {bo : γ → Err → List Bytes}
+    (ht : EmitsChecked w.tbl = true) {r₁ r₂ : Rewriter γ} (data : Bytes) (h : RR r₁ r₂) :
+    RR (r₁.write (w.rechunk ch he bo) data).1 (r₂.write w data).1 ∧
+    (r₁.write (w.rechunk ch he bo) data).2 = (r₂.write w data).2 := by
+  obtain ⟨hs, hp, he'⟩ := h
+  unfold Model.Rewriter.write
+  rw [hp]
+  split
+  · exact ⟨⟨hs, hp, he'⟩, rfl⟩
+  · obtain ⟨a, b⟩ := write_rel (w := w) (ch := ch) (he := he) (bo := bo) ht data hs
+    simp only
+    rw [b]
+    cases (r₂.stream.write w data).2 with
+    | ok u => exact ⟨⟨a, rfl, he'⟩, rfl⟩
+    | error e => exact ⟨⟨a, rfl, he'⟩, rfl⟩
+
+theorem end_RR {w : World γ} {ch : γ → Token → List Bytes} {he : γ → List Bytes} {bo : γ → Err → List Bytes}
+    (ht : EmitsChecked w.tbl = true) {r₁ r₂ : Rewriter γ} (h : RR r₁ r₂) :
+    RR (r₁.end (w.rechunk ch he bo)).1 (r₂.end w).1 ∧ (r₁.end (w.rechunk ch he bo)).2 = (r₂.end w).2 := by
+  obtain ⟨hs, hp, he'⟩ := h
+  unfold Model.Rewriter.end
+  rw [hp]
+  split
+  · exact ⟨⟨hs, hp, he'⟩, rfl⟩
+  · obtain ⟨a, b⟩ := end_rel (w := w) (ch := ch) (he := he) (bo := bo) ht hs
+    simp only
+    rw [b]
+    cases (r₂.stream.end w).2 with
+    | ok u => exact ⟨⟨a, rfl, rfl⟩, rfl⟩
+    | error e => exact ⟨⟨a, rfl, rfl⟩, rfl⟩
+
+theorem writeAll_RR {w : World γ} {ch : γ → Token → List Bytes} {he : γ → List Bytes} {bo : γ → Err → List Bytes}
+    (ht : EmitsChecked w.tbl = true) (chunks : List Bytes) {r₁ r₂ : Rewriter γ} (h : RR r₁ r₂) :
+    RR (writeAll (w.rechunk ch he bo) r₁ chunks).1 (writeAll w r₂ chunks).1 ∧
+    (writeAll (w.rechunk ch he bo) r₁ chunks).2 = (writeAll w r₂ chunks).2 := by
+  induction chunks generalizing r₁ r₂ with
+  | nil => exact ⟨h, rfl⟩
+  | cons c cs ih =>
+    obtain ⟨a, b⟩ := write_RR (w := w) (ch := ch) (he := he) (bo := bo) ht c h
+    obtain ⟨a', b'⟩ := ih a
+    simp only [writeAll]
+    exact ⟨a', by rw [b, b']⟩
+
+/-- **C14_independent_of_rewrites.** What handlers WRITE has no influence on what they are HANDED. Replace, in any
+controller, the bytes every token handler writes (`ch`), the end-of-document content (`he`) and the bail-out content
+(`bo`) by arbitrary other bytes, keeping the handlers' decisions (state, capture flags, errors, encoding switch): on
+every history `write* ; end`, every call returns the same result and the controller ends in the same state — so it was
+handed the same tokens, each with the same source range: ranges are computed from input offsets only (`C14_src`),
+never from the output. (The two runs differ in the sink log alone: `DR`.) -/
+theorem C14_independent_of_rewrites (w : World γ) (ht : EmitsChecked w.tbl = true)
+    (ch : γ → Token → List Bytes) (he : γ → List Bytes) (bo : γ → Err → List Bytes) (g : γ) (cfg : Settings)
+    (chunks : List Bytes) :
+    (run (w.rechunk ch he bo) (Rewriter.new (w.rechunk ch he bo) g cfg) chunks).2 = (run w (Rewriter.new w g cfg) chunks).2 ∧
+    DR (run (w.rechunk ch he bo) (Rewriter.new (w.rechunk ch he bo) g cfg) chunks).1.stream.disp
+       (run w (Rewriter.new w g cfg) chunks).1.stream.disp := by
+  unfold run
+  obtain ⟨a, b⟩ := writeAll_RR (w := w) (ch := ch) (he := he) (bo := bo) ht chunks (new_RR w ch he bo g cfg)
+  obtain ⟨a', b'⟩ := end_RR (w := w) (ch := ch) (he := he) (bo := bo) ht a
+  exact ⟨by simp only; rw [b, b'], a'.1.disp⟩
+
+/-- … in particular the same controller state, hence (for a logging controller) the same list of tokens -/
+theorem C14_same_tokens (w : World γ) (ht : EmitsChecked w.tbl = true) (log : γ → List Token)
+    (ch : γ → Token → List Bytes) (he : γ → List Bytes) (bo : γ → Err → List Bytes) (g : γ) (cfg : Settings)
+    (chunks : List Bytes) :
+    log (run (w.rechunk ch he bo) (Rewriter.new (w.rechunk ch he bo) g cfg) chunks).1.stream.disp.ctl =
+    log (run w (Rewriter.new w g cfg) chunks).1.stream.disp.ctl := by
+  have h : Disp.forget _ = Disp.forget _ := (C14_independent_of_rewrites w ht ch he bo g cfg chunks).2
+  have h2 := congrArg (fun d : Disp γ => log d.ctl) h
+  exact h2
+
+/-- non-vacuity: the logging controller writing each token twice and `!` at the end, versus writing it once: the
+outputs differ, the tokens handed over (with their ranges) are the same -/
+example : sinkBytes (run (World.rechunk ⟨Gen.Syntax.table, Gen.Tags.cfg, withLog (constCtl 31)⟩ (fun _ t => [t.raw, t.raw]) (fun _ => [[33]]) (fun _ _ => []))
+      (Rewriter.new (World.rechunk ⟨Gen.Syntax.table, Gen.Tags.cfg, withLog (constCtl 31)⟩ (fun _ t => [t.raw, t.raw]) (fun _ => [[33]]) (fun _ _ => [])) ((), []) {})
+      sampleChunks).1.sink ≠
+    sinkBytes (run ⟨Gen.Syntax.table, Gen.Tags.cfg, withLog (constCtl 31)⟩
+      (Rewriter.new ⟨Gen.Syntax.table, Gen.Tags.cfg, withLog (constCtl 31)⟩ ((), []) {}) sampleChunks).1.sink := by
+  decide +kernel
 
 /-! ### attribute locations -/
 
